@@ -305,6 +305,19 @@ def crowd_case(case):
         got = env.get_agents_at(0, 0, 0, 2 ** 62)
         if got != [agents[j] for j in live]:
             raise Violation(f'{n} agents: all-embracing box is not all agents in joining order')
+        if cont and not huge and rnd == 0:
+            # boxes whose face passes a hair's breadth (1e-9, far below single precision) beside an agent: in or out is
+            # decided by the exact coordinates
+            for i in live[::max(1, len(live) // 12)]:
+                for off, lw in ((1 + 1e-9, 1), (1 - 1e-9, 1), (0.5 + 1e-9, 0.5), (1e-9, 0)):
+                    for sign in (1, -1):
+                        qp = (pos[i][0] + sign * off, pos[i][1], pos[i][2])
+                        got = env.get_agents_at(qp[0], qp[1], qp[2], lw)
+                        exp = [agents[j] for j in live if box_match(pos[j], qp, (lw, 0, 0, 0), d3, False, False)]
+                        q += 1
+                        if got != exp:
+                            raise Violation(f'{n} agents: query at {qp} leeway {lw} (a face 1e-9 beside agent {agents[i].id} at '
+                                            f'{pos[i]})', expected=[a.id for a in exp], observed=[a.id for a in got])
         # one agent is replaced by a newcomer elsewhere (the population size stays the same), then queried again
         v = live[len(live) // 3]
         env.remove_agent(agents[v].id)
@@ -511,7 +524,7 @@ def run(ctx):
     par.pmap(ctx, single_fn, cases, procs=ctx.procs)
     ctx.leg('single', worlds=len(cases), full_lattice=full)
     extra = [{'leg': 'crowd', 'world': wn, 'n': n} for wn in ('space4x3x0', 'space4x3x2', 'grid4x3', 'disc4x3x2')
-             for n in ((3, 70) if not full else (3, 10, 70, 150))]
+             for n in ((3, 70, 300) if not full else (3, 10, 70, 150, 300, 700))]
     extra += [{'leg': 'crowd', 'world': 'space4x3x0', 'n': 60, 'huge': True}]
     extra += [{'leg': 'replaced_world', 'new': nw, 'via': via} for nw in ('space', 'grid') for via in ('set', 'assign')]
     extra += [{'leg': 'resized_world', 'wrap': False}, {'leg': 'resized_world', 'wrap': True}]
